@@ -204,10 +204,12 @@ Definition of_ufield (u : ufield) : ofield :=
             (uf_optional u) (Some (mkInl 2 [] os))
   | KExt tn k =>
       mkF10 (uf_name u) (TExt tn k) false (uf_required u) false false None None None (uf_optional u)
+  (* an explicitly optional array / map is NOT proto3_optional (fix d536c9b, buildProperty: a repeated
+     field cannot be the member of a synthetic oneof); the optional+required clash is still checked *)
   | KArray i =>
-      mkF10 (uf_name u) (otype_of_item i) true (uf_required u) false false None None None (uf_optional u)
+      mkF10 (uf_name u) (otype_of_item i) true (uf_required u) false false None None None false
   | KMap v =>
-      mkF10 (uf_name u) (TMap (otype_of_item v)) true (uf_required u) false false None None None (uf_optional u)
+      mkF10 (uf_name u) (TMap (otype_of_item v)) true (uf_required u) false false None None None false
   | KScalar pt k =>
       mkF10 (uf_name u) (TScalar pt k) false (uf_required u) false false None None None (uf_optional u)
   | KObject n =>
@@ -221,8 +223,15 @@ Definition of_ufield (u : ufield) : ofield :=
             foreign (uf_optional u)
   end.
 (* buildProperty: "cannot be both required and optional" (a primary key is required) *)
+Definition sfield_ok (s : sfield) : bool := negb (sf_optional s && sf_required s).
 Definition ufield_ok (u : ufield) : bool :=
-  negb (uf_optional u && (uf_required u || match uf_kind u with KKey p _ _ => p | _ => false end)).
+  negb (uf_optional u && (uf_required u || match uf_kind u with KKey p _ _ => p | _ => false end))
+  (* the fields of an inline object / the options of an inline oneof go through buildProperty too *)
+  && match uf_kind u with
+     | KInlineObject fs => forallb sfield_ok fs
+     | KInlineOneof fs => forallb sfield_ok fs
+     | _ => true
+     end.
 Definition plain_field (name : string) (t : otype) (required : bool) : ofield :=
   mkF (bs name) t false required false false None None.
 Definition array_field (name : bytes) (t : otype) (required : bool) : ofield :=
@@ -552,19 +561,21 @@ Definition command_params_ok (e : entity) : bool :=
                             (c_methods c)) (e_commands e).
 
 (* list-request settings of the query block: after the walk, the conversion of the List / Events
-   method calls proto.SetExtension((j5.list.v1.list_request) - a MessageOptions extension - on
-   MethodOptions (visitServiceMethodNode), which PANICS; walker errors come first, every other
-   conversion error would come later *)
+   method reports "listRequest is not supported on a method" (fix 985f10a, visitServiceMethodNode:
+   (j5.list.v1.list_request) extends MessageOptions; before the fix proto.SetExtension panicked).
+   Walker errors come first.  The conversion COLLECTS its errors and reports them together; the
+   harness classifies a joint message by the other error (errClass in c17.go looks for the
+   list-request text last), so the model reports the list-request error only when it is alone *)
 Definition list_settings (e : entity) : bool :=
   match e_query e with Some q => q_list_settings q | None => false end.
 
 (* the conversion outcome (j5convert) as far as the expansion decides it *)
 Definition convert (e : entity) : outcome (list component) :=
   match expand e with
-  | Ok cs => if list_settings e then Panic "SetExtension list_request on MethodOptions (visitServiceMethodNode)" else
-             if closed cs then
+  | Ok cs => if closed cs then
                if fields_ok e then
-                 if query_params_ok e && command_params_ok e then Ok cs
+                 if query_params_ok e && command_params_ok e then
+                   if list_settings e then Err "listRequest is not supported on a method" else Ok cs
                  else Err "missing field in request"
                else Err "cannot be both required and optional"
              else Err "type not found"
@@ -659,13 +670,13 @@ Definition compile_file (es : list entity) : outcome (list component) :=
 Definition compile (e : entity) : outcome (list component) := compile_file [e].
 
 (* what protodesc.NewFiles (structure.APIFromImage, the first step towards the client API)
-   rejects although the compiler linked it:
-   (1) a proto3-optional field that is repeated (an optional array or map: visitObjectNode puts
-       it into a synthetic oneof);
-   (2) an open enum with two values whose names coincide once the enum-name prefix is trimmed
-       (case-insensitively, ignoring '_') and the rest is put into PascalCase
-       (protodesc validateEnumDeclarations: strs.TrimEnumPrefix / strs.EnumValueName):
-       `status Active` + `status ACTIVE`. *)
+   rejects although the compiler linked it: an open enum with two values whose names coincide once
+   the enum-name prefix is trimmed (case-insensitively, ignoring '_') and the rest is put into
+   PascalCase (protodesc validateEnumDeclarations: strs.TrimEnumPrefix / strs.EnumValueName):
+   `status Active` + `status ACTIVE`.  This is NOT judged by C17 (no clause of C17 speaks of deriving
+   the client API: it is C16's "can be turned into a client API without error"); the model predicts
+   it only so that the second observable of the tie (the client StateEntity) is compared exactly
+   when it exists.  (A proto3-optional repeated field was the second such class until fix d536c9b.) *)
 Fixpoint drop_underscores (s : bytes) : bytes :=
   match s with c :: r => if c =? 95 then drop_underscores r else s | [] => [] end.
 (* strs.TrimEnumPrefix(s, prefix), prefix lower-case without underscores; [s0] is the whole name *)
@@ -693,8 +704,7 @@ Definition enum_accepts (name : bytes) (vs : list (bytes * N)) : bool :=
   nodup_bytes (map (fun v => enum_value_name (trim_enum_prefix (fst v) (enum_prefix_of name))) vs).
 
 Definition client_accepts (cs : list component) : bool :=
-  forallb (fun f => negb (f_optional f && f_repeated f)) (fields_of cs)
-  && forallb (fun c => match c with CEnum n vs => enum_accepts n vs | _ => true end) cs.
+  forallb (fun c => match c with CEnum n vs => enum_accepts n vs | _ => true end) cs.
 
 (* error classes, as the harness classifies the real compiler's message (errClass in c17.go) *)
 Definition err_class (s : string) : N :=
@@ -705,4 +715,5 @@ Definition err_class (s : string) : N :=
   else if String.eqb s "missing field in request" then 5
   else if String.eqb s "symbol already defined" then 6
   else if String.eqb s "value is required" then 7
+  else if String.eqb s "listRequest is not supported on a method" then 8
   else 99.
